@@ -1,4 +1,5 @@
 import AriesVerif.C11.Props
+import AriesVerif.C11.NonDet
 #print axioms C11.Refines.run_eq
 #print axioms C11.mem_refines
 #print axioms C11.ldb_refines
@@ -10,3 +11,5 @@ import AriesVerif.C11.Props
 #print axioms C11.C11_stack_history
 #print axioms C11.C11_cached_prepopulated
 #print axioms C11.C11_batched_prepopulated
+#print axioms C11.NonDet.C11_nondet_reports_caller_key
+#print axioms C11.NonDet.C11_F7_old_reports_formatted_key
